@@ -76,7 +76,8 @@ PROPS = {
                      "Sqlize.C01.indexes_and_keys_from_scripts", "Sqlize.elems_end_to_end", "Sqlize.Abs.Idx.emit_correct", "Sqlize.Abs.Idx.emitKeep_correct",
                      "Sqlize.Table.walkIdx_refines", "Sqlize.Table.walkFk_refines", "Sqlize.Table.diff_elems",
                      "Sqlize.C01.indexes_with_dropped_columns", "Sqlize.Abs.Idx.plan_correct", "Sqlize.Abs.Idx.emitSup_correct", "Sqlize.Abs.Idx.dropCols_idxs",
-                     "Sqlize.Table.walkIdx_refines_sup", "Sqlize.Spec.execAll_wf"],
+                     "Sqlize.Table.walkIdx_refines_sup", "Sqlize.Spec.execAll_wf",
+                     "Sqlize.C01.equal_column_untouched", "Sqlize.Table.walkCols_about", "Sqlize.Table.diffCols1_unchanged_mem"],
         "suites": [{"name": "pair"}],
         "corr_points": ["load-old", "load-new", "state-old", "state-new", "Diff", "state-diff", "StringUp"],
         "rule": PAIR_RULE,
@@ -88,7 +89,8 @@ PROPS = {
                        "CREATE/DROP INDEX statements its old index list into the new one up to order, the ADD/DROP foreign-key statements its old key list "
                        "into the new one unless a key is redefined in place (indexes_and_keys_from_scripts); with dropped columns the index statements printed with "
                        "the dropped-column list turn what the DROP COLUMNs leave of the old index list into the new one, unless an index is redefined while all its "
-                       "old columns are dropped = the recorded finding (indexes_with_dropped_columns). Not proved: column attributes (MODIFY), the primary "
+                       "old columns are dropped = the recorded finding (indexes_with_dropped_columns); a column with the same type and options (up to order) on both "
+                       "sides gets no column statement in either direction (equal_column_untouched, schemas without PRIMARY KEY). Not proved: a MODIFY for exactly the changed columns, the primary "
                        "key, other dialects; the full statement Sqlize.C01.Statement(_partial) is decided on "
                        "every run by correspondence (model = code on state and text) plus the "
                        "executable predicate Spec.c01 (reference DDL engine) on the migration text the Go code printed.",
